@@ -12,3 +12,7 @@
 (declare-fun codeOf (Any) Int)
 ; casbin's decision for (enforcer, subject, object, action)
 (declare-fun casbinAllows (Int Any Any Any) Bool)
+; the credentials parseBasicAuth reads from a header value (named results of a pure function)
+(declare-fun bauser (Str) Str)
+(declare-fun bapass (Str) Str)
+(declare-fun baok (Str) Bool)
